@@ -131,6 +131,15 @@ def check_dense(np, sparse, layout):
         shift = lp - d
         if np.abs(shift - shift[:, :1]).max() > 1e-9:
             bad.append(('shift-by-row-constant', 'log-probabilities differ from the dense logits by more than a per-row constant'))
+        # the floor is a parameter of both: pruned entries get THAT value, and the log-probabilities are those of THAT dense matrix
+        for floor in (-50.0, -30, -12.5):
+            df = line.get_dense_logits(floor)
+            if not np.array_equal(df[arr != 0], arr[arr != 0]) or not np.all(df[arr == 0] == floor):
+                bad.append(('dense-keeps-stored', 'dense matrix with floor %r: %r from stored %r' % (floor, df.tolist(), arr.tolist())))
+            lpf = line.get_full_logprobs(floor)
+            sh = lpf - df
+            if np.abs(np.exp(lpf).sum(axis=1) - 1).max() > 1e-9 or np.abs(sh - sh[:, :1]).max() > 1e-9:
+                bad.append(('rows-normalised', 'get_full_logprobs(%r) is not the row-normalised dense matrix with that floor (stored %r)' % (floor, arr.tolist())))
     # stored logits of tiny magnitude are still stored logits (only exact zeros are pruned entries)
     for dt in (np.float32, np.float64):
         tiny = np.array([[3e-9, -2.0, -3.0], [-1.0, -5e-9, -4.0], [0.0, 1e-12, -1.0]], dtype=dt)
